@@ -233,7 +233,8 @@ def run(chk, replay=None):
         return bad + post(gb, cases, outs)
     return run_check(chk, replay, PROP, gen_cases, lambda gb, c, o: [],
                      rule="every struct / union of the corpus compiled with keep_unknown_fields (top-level; nested; inside list / map "
-                          "containers: evo.EvoHolder, svc.Holder, uni.HasUn, rec.*; as method argument: svc.Req, inc.Pt and the synthesised "
+                          "containers: evo.EvoHolder, svc.Holder, uni.HasUn, rec.*; as method argument: svc.Req, inc.Pt, argk.* (last declared field a scalar / "
+                          "nested struct / string / map; constant defaults, required and optional) and the synthesised "
                           "Args/Result types that contain them) as READER x writer schemas = reader + 1-3 added fields of every wire type "
                           "at any position / added union variants, in any reachable type x values under the writer schema x {checked "
                           "binary, unchecked binary}; plus the plain build on the same bytes; distinct by SHA-1 of the case line",
